@@ -25,6 +25,7 @@ type Contract struct {
 	LoopDec        map[int]ast.Expr
 	Overflow       bool
 	MayPanic       bool
+	Decreases      ast.Expr // `decreases e`: variant of a directly recursive function (non-negative at entry, smaller at each recursive call)
 	CallbacksReady bool // `callbacks_ready`: a contracted parameterless literal passed as an argument must have its preconditions established at that call
 	Watch          bool
 	Recovers       bool
@@ -596,6 +597,12 @@ func parseContracts(path string, unit string) (map[string]*Contract, error) {
 			cur.Unreachable[strings.TrimSpace(strings.TrimPrefix(line, "unreachable"))] = true
 		case "check":
 			cur.Overflow = true
+		case "decreases":
+			e, err := parseSpecExpr(strings.TrimSpace(strings.TrimPrefix(line, "decreases")))
+			if err != nil {
+				return nil, fmt.Errorf("%s:%d: %v", path, ln, err)
+			}
+			cur.Decreases = e
 		case "may_panic":
 			cur.MayPanic = true
 		case "callbacks_ready":
